@@ -17,7 +17,7 @@ def big(name, which, lo, hi, instances, per):
 
 for _w in ("dict", "graph"):
     CONFIGS[(_w, "quick")] += [big("big-%s-60" % _w, _w, 10, 60, 36, 10), big("big-%s-300" % _w, _w, 100, 300, 6, 6)]
-    CONFIGS[(_w, "thorough")] += [big("big-%s-80" % _w, _w, 10, 80, 300, 20), big("big-%s-400" % _w, _w, 100, 400, 24, 8)]
+    CONFIGS[(_w, "thorough")] += [big("big-%s-80" % _w, _w, 10, 80, 300, 20), big("big-%s-300t" % _w, _w, 100, 300, 24, 8)]
 
 
 def tlc_cfg(c):
